@@ -131,7 +131,7 @@ class C14(Check):
     budget = (60, 420)
 
     def cases(self, tier, seed):
-        nb, n = (3, 20000) if tier == "quick" else (60, 100000)
+        nb, n = (10, 40000) if tier == "quick" else (120, 200000)
         for cls in CLASSES:
             for b in range(nb):
                 size = n
